@@ -3,6 +3,8 @@
 -/
 import OlVerif.Ctrl.Lemmas
 
+set_option linter.unusedSimpArgs false
+
 namespace OlVerif.Ctrl
 
 /-! ### well-formedness of skeletons -/
@@ -21,16 +23,17 @@ end
 
 mutual
   /-- a loop's id differs from the ids of the loops nested in its body; `break` / `continue`
-      occur only inside loops (`inLoop`) -/
-  def wf (inLoop : Bool) : Sk → Bool
+      occur only inside loops (`inLoop`), `return` only inside a function (`inFn`) -/
+  def wf (inLoop inFn : Bool) : Sk → Bool
     | .brk | .cont => inLoop
-    | .ite _ t e => wfL inLoop t && wfL inLoop e
-    | .whl c b e => !(loopIdsL b).contains c && wfL true b && wfL inLoop e
-    | .for_ c b e => !(loopIdsL b).contains c && wfL true b && wfL inLoop e
+    | .ret _ => inFn
+    | .ite _ t e => wfL inLoop inFn t && wfL inLoop inFn e
+    | .whl c b e => !(loopIdsL b).contains c && wfL true inFn b && wfL inLoop inFn e
+    | .for_ c b e => !(loopIdsL b).contains c && wfL true inFn b && wfL inLoop inFn e
     | _ => true
-  def wfL (inLoop : Bool) : List Sk → Bool
+  def wfL (inLoop inFn : Bool) : List Sk → Bool
     | [] => true
-    | s :: ss => wf inLoop s && wfL inLoop ss
+    | s :: ss => wf inLoop inFn s && wfL inLoop inFn ss
 end
 
 /-! ### flags of a context -/
@@ -148,6 +151,16 @@ theorem ctxFlags_cases {cx : Cx} {l : LCtx} (hl : cx.loops.getLast? = some l) {f
   · exact Or.inl h
   · exact Or.inr (Or.inl h)
   · exact Or.inr (Or.inr (Or.inr h))
+
+theorem mem_of_mem_dropLast {α} {a : α} : ∀ {l : List α}, a ∈ l.dropLast → a ∈ l
+  | [], h => by simp at h
+  | [x], h => by simp at h
+  | x :: y :: zs, h => by
+    rw [List.dropLast_cons_cons] at h
+    simp only [List.mem_cons] at h ⊢
+    rcases h with h | h
+    · exact Or.inl h
+    · exact Or.inr (List.mem_cons.mp (mem_of_mem_dropLast (l := y :: zs) h))
 
 theorem setF_same (fl : Flag → Bool) (f : Flag) (v : Bool) : setF fl f v f = v := by simp [setF]
 theorem setF_other (fl : Flag → Bool) (f g : Flag) (v : Bool) (h : g ≠ f) : setF fl f v g = fl g := by
